@@ -1831,4 +1831,31 @@ theorem memo_correct (U : Universe) (m x : Nat) (W : World) (S : PStore) (K : Lo
         | (simp only [evalStep, ha, hs, not_false_eq_true, if_true]; exact Extends.refl _)
         | (intro h; exact absurd h hs)
 
+/-! ## Histories -/
+
+/-- a step of a history: a version of the code and a request evaluated against the store left by the steps before -/
+structure HStep where
+  world : World
+  rq : Request
+
+def HStep.ok (U : Universe) (x : Nat) (s : HStep) : Prop :=
+  EvalCtx U x s.world ∧ U.request s.rq
+
+/-- the store after a history (any sequence of versions of the code, requests, stage lists) -/
+def runHistory (m : Nat) : PStore → List HStep → PStore
+  | S, [] => S
+  | S, s :: ss => runHistory m (evalStep m s.world S s.rq).store ss
+
+/-- the store and the values kept by plain execution after a history -/
+def runHist (m : Nat) : HState → List HStep → HState
+  | h, [] => h
+  | h, s :: ss => runHist m (histStep m h s.world s.rq) ss
+
+theorem runHist_store (m : Nat) : ∀ (hist : List HStep) (h : HState), (runHist m h hist).store = runHistory m h.store hist
+  | [], _ => rfl
+  | s :: ss, h => by simp only [runHist, runHistory]; rw [runHist_store m ss]; rfl
+
+theorem sound_empty (U : Universe) (m x : Nat) (noop : Bool) : Sound U m x { noop := noop } := by
+  intro k v h; simp [sgGet] at h
+
 end Dds
